@@ -54,6 +54,39 @@ CATALOG = [
     ("seed-C16_m1", "seeded", "C16_m1", [("R-STUB", "StringDictionaryFMINDEX::extractSubstr#guard")]),
     ("seed-C16_m2", "seeded", "C16_m2", [("R-STUB", "StringDictionaryHASHRPDACBlocks::locateRank")]),
     ("seed-C16_m3", "seeded", "C16_m3", [("R-TAGS", "StringDictionaryRPDAC::load#tagcheck")]),
+    ("seed-C01_m1", "seeded", "C01_m1", [("R-SLOT", "task-mutates-parts")]),
+    ("seed-C01_m2", "seeded", "C01_m2", [("R-PROBE", "HashBdh::search#probe")]),
+    ("seed-C01_m3", "seeded", "C01_m3", [("R-BYTEORDER", "signed-byte")]),
+    ("seed-C02_m1", "seeded", "C02_m1", [("R-ALPHAGUARD", "SSA::locate_id#occ-unchecked-in-loop")]),
+    ("seed-C02_m2", "seeded", "C02_m2", [("R-SCANEXIT", "StringDictionaryPFC::locate#scan-without-early-exit")]),
+    ("seed-C02_m3", "seeded", "C02_m3", [("R-IDGUARD", "StringDictionaryHASHRPDAC::extract#unguarded")]),
+    ("seed-C03_m1", "seeded", "C03_m1", [("R-BYTEORDER", "difference-narrowed")]),
+    ("seed-C03_m2", "seeded", "C03_m2", [("R-CMPSIGN", "RePair::extractStringAndCompareDAC#mixed-orientation")]),
+    ("seed-C03_m3", "seeded", "C03_m3", [("R-CLAMP", "raw-bucketsize-used")]),
+    ("seed-C04_m1", "seeded", "C04_m1", [("R-BISECT", "StringDictionaryRPDAC::locatePrefix#right-upper")]),
+    ("seed-C04_m2", "seeded", "C04_m2", [("R-BUCKET", "last-bucket-var")]),
+    ("seed-C04_m3", "seeded", "C04_m3", [("R-PURE-PREFIX", "anchoredQuery#write-to-global")]),
+    ("seed-C05_m1", "seeded", "C05_m1", [("R-SAMPLECOUNT", "sample-count-conversion-loop")]),
+    ("seed-C05_m2", "seeded", "C05_m2", [("R-DUPSKIP", "IteratorDictStringXBWDuplicates::next#no-skip-loop")]),
+    ("seed-C07_m1", "seeded", "C07_m1", [("R-SLACK", "StringDictionaryPFC::StringDictionaryPFC#slack")]),
+    ("seed-C07_m2", "seeded", "C07_m2", [("R-EXTENT", "DAC_VLS::levels")]),
+    ("seed-C07_m3", "seeded", "C07_m3", [("R-LOCKSET", "")]),
+    ("seed-C09_m2", "seeded", "C09_m2", [("R-WORKERPURE", "nearest_prime")]),
+    ("seed-C09_m3", "seeded", "C09_m3", [("R-SLOT", "")]),
+    ("seed-C10_m1", "seeded", "C10_m1", [("R-CV", "WorkerQueue::add_task#update-of")]),
+    ("seed-C12_m1", "seeded", "C12_m1", [("R-SLOT", "slot-index-not-captured")]),
+    ("seed-C12_m3", "seeded", "C12_m3", [("R-BUCKET", "StringDictionaryPFC::locate#last-bucket")]),
+    ("seed-C13_m1", "seeded", "C13_m1", [("R-DUPSKIP", "IteratorDictIDDuplicates::next#skip-condition")]),
+    ("seed-C13_m2", "seeded", "C13_m2", [("R-FMMAP", "iterator-last")]),
+    ("seed-C15_m1", "seeded", "C15_m1", [("R-METADATA", "StringDictionaryPFC::StringDictionaryPFC#maxlength")]),
+    ("seed-C15_m2", "seeded", "C15_m2", [("R-MIRROR", "StringDictionaryHTFC::save<->StringDictionaryHTFC::load")]),
+    ("seed-C17_m1", "seeded", "C17_m1", [("R-TWINS", "VByte::decode<->decodeVB2")]),
+    ("seed-C17_m2", "seeded", "C17_m2", [("R-SETFIELD", "LogSequence::set_field#store")]),
+    ("seed-C19_m2", "seeded", "C19_m2", [("R-MIRROR", "BitSequenceRG")]),
+    ("seed-C19_m3", "seeded", "C19_m3", [("R-CONSTPURE", "wt_coder_huff")]),
+    ("seed-C20_m1", "seeded", "C20_m1", [("R-RPWIDTH", "RePair::getBits#width")]),
+    ("seed-C20_m2", "seeded", "C20_m2", [("R-BACKPTR", "HashRP::insertHash#table-without-kpos")]),
+    ("seed-C20_m3", "seeded", "C20_m3", [("R-NARROW", "RePair::save#narrow-terminals")]),
     # one-place substitutions for rules nothing above exercises: (file, old, new)
     ("sub-mirror-width", "subst", ("StringDictionaryPFC.cpp", "dict->buckets = loadValue<uint32_t>(in);", "dict->buckets = loadValue<uint64_t>(in);"),
      [("R-MIRROR", "StringDictionaryPFC::save")]),
@@ -98,6 +131,17 @@ CATALOG = [
     ("sub-vbyte", "subst", ("utils/VByte.cpp", "    c >>= 7;", "    c >>= 8;"), [("R-VBYTE", "VByte::encode<->VByte::decode")]),
     ("sub-dupskip", "subst", ("iterators/IteratorDictStringFMINDEXDuplicates.h", "    } while (ids[processed - 1] == ids[processed]);", "    } while (processed < scanneable && ids[processed - 1] == ids[processed]);"),
      [("R-DUPSKIP", "IteratorDictStringFMINDEXDuplicates::next#skip-condition")]),
+    ("sub-bsearch", "subst", ("StringDictionaryPFC.cpp", "    if (cmp > 0)\n      right = center - 1;\n    // The string is in any subsequent bucket\n    else if (cmp < 0)\n      left = center + 1;",
+                             "    if (cmp < 0)\n      right = center - 1;\n    // The string is in any subsequent bucket\n    else if (cmp > 0)\n      left = center + 1;"),
+     [("R-BSEARCH", "StringDictionaryPFC::locateBucket#direction")]),
+    ("sub-scansign", "subst", ("StringDictionaryRPFC.cpp", "      if ((cmp > 0) || (i == scanneable))", "      if ((cmp < 0) || (i == scanneable))"),
+     [("R-SCANSIGN", "StringDictionaryRPFC::searchPrefix#scan-gives-up")]),
+    ("sub-cmparg", "subst", ("StringDictionaryHTFC.cpp", "    cmp = memcmp(header, str, strLen);\n\n    // The string is in any preceding bucket", "    cmp = memcmp(str, header, strLen);\n\n    // The string is in any preceding bucket"),
+     [("R-BSEARCH", "StringDictionaryHTFC::locateBucket#direction")]),
+    ("sub-bisect-step", "subst", ("StringDictionaryRPDAC.cpp", "      if (cmp == 0)\n        rl = rc;\n      else\n        rr = rc;", "      if (cmp == 0)\n        rl = rc + 1;\n      else\n        rr = rc;"),
+     [("R-BISECT", "StringDictionaryRPDAC::locatePrefix#right-step")]),
+    ("sub-purerank", "subst", ("StringDictionaryRPDAC.cpp", "uint StringDictionaryRPDAC::locateRank(uint rank) { return rank; }", "uint StringDictionaryRPDAC::locateRank(uint rank) { static uint last = 0; last = rank; return last; }"),
+     [("R-PURE-RANK", "StringDictionaryRPDAC::locateRank"), ("R-QUERYPURE", "StringDictionaryRPDAC::locateRank")]),
     ("sub-lockorder", "subst", ("parallel/Worker.hpp", "  bool stopped() {\n    std::lock_guard lg(mutex_stop);\n    return _stopped;",
                                 "  bool stopped() {\n    std::lock_guard lg(mutex_stop);\n    std::lock_guard lg2(shared_mutex);\n    return _stopped;"),
      [("R-LOCKORDER", "")]),
